@@ -170,6 +170,16 @@ class Explorer:
                 return k
         raise PathAbort()
 
+    def concretize_any(self, x, limit=64):
+        """fork over every feasible value of the symbolic integer x (found by model enumeration)"""
+        for _ in range(limit):
+            if not self.sat():
+                raise PathAbort()
+            v = self.model().eval(x, model_completion=True).as_long()
+            if self.branch(x == v):
+                return v
+        raise Inconclusive("more than %d feasible values for a data-dependent integer" % limit)
+
     # ---------------------------------------------------------------- driver
     def run(self, fn, prefixes=None):
         """run fn() over all paths (optionally only those extending the given decision prefixes)"""
